@@ -22,6 +22,7 @@ func main() {
 	mut := flag.String("mutants", "", "directory of mutant scripts (thorough tier self-test)")
 	verif := flag.String("verif", "/verif", "verification directory (evidence/, out/, known-findings.json)")
 	dump := flag.Bool("dump", false, "list units and exit")
+	dumpBase := flag.Bool("dump-baseline", false, "print the rename-recovery baseline of the tree (functions, locals) as JSON and exit")
 	list := flag.Bool("list", false, "print every obligation with its verdict (diagnosis)")
 	noEvidence := flag.Bool("scratch", false, "scratch run (mutant self-test): write evidence/out under -verif as given")
 	flag.Parse()
@@ -35,10 +36,15 @@ func main() {
 	seed, _ := strconv.ParseInt(os.Getenv("VERIF_SEED"), 10, 64)
 	started := time.Now()
 
+	core.BaselineOff = *dumpBase
 	p, err := core.Load(*repo)
 	if err != nil {
 		fmt.Printf("CHECK-ERROR cannot load %s: %v\n", *repo, err)
 		os.Exit(2)
+	}
+	if *dumpBase {
+		os.Stdout.Write(p.DumpBaseline())
+		return
 	}
 	if *dump {
 		for _, u := range p.Units {
